@@ -312,6 +312,14 @@ def gen_cases(ctx):
                 yield {"kind": "binnode_bad", "node": _mk_binnode(t, ln, rnd).hex()}
     if ctx.shard == 0:
         yield {"kind": "binnode_bad", "none": True}
+        # the library's own sentinel byte strings handed in as a serialized node (round 7: a
+        # validator that lets keccak(b'') through was reused for the type-byte check); they are
+        # judged like any other byte string, by their first byte and length
+        from eth_hash.auto import keccak as _k
+        for magic in (_k(b""), _k(b"\x80"), b"\x80", b"\x00" * 32, b"\xc0", _k(b"\xc0")):
+            for node in (magic, magic + b"\x00", magic[:31], magic + magic, b"\x00" + magic,
+                         b"\x01" + magic, b"\x02" + magic):
+                yield {"kind": "binnode_bad", "node": node.hex()}
     sizes = [0, 1, 16, 31, 32, 33, 48, 63, 64, 65]
     for l in sizes:
         for r in sizes:
